@@ -17,11 +17,10 @@ def run(unit, tier):
            "items": [], "trusted": [], "cmds": [], "smt_ms": 0, "wall": 0.0, "canary": {}, "fn_props": {}, "bounded": [], "samples": []}
     crate = os.path.join(VERIF, unit["crate_dir"])
     if os.environ.get("VERIF_BUILD"):
-        # side run: work on a private copy of the harness crate
+        # every check run works on its own copy of the harness crate (see runner.private_build_dir)
         import shutil
         side = os.path.join(os.environ["VERIF_BUILD"], "kani-" + unit["name"])
-        if not os.path.isdir(side):
-            shutil.copytree(crate, side, ignore=shutil.ignore_patterns("target"))
+        shutil.copytree(crate, side, ignore=shutil.ignore_patterns("target"), dirs_exist_ok=True)
         crate = side
     try:
         g = extract.generate(os.path.join(VERIF, unit["template"]))
@@ -38,11 +37,20 @@ def run(unit, tier):
     for h in harnesses:
         cmd += ["--harness", h["name"]]
     t0 = time.time()
+    # the cargo target directory (compiled dependencies, Kani's goto artefacts) is shared between check runs: runs of the
+    # same Kani unit from two checks started side by side take turns
+    import fcntl
+    os.makedirs(os.path.join(VERIF, ".cache"), exist_ok=True)
+    lock = open(os.path.join(VERIF, ".cache", "kani-" + unit["name"] + ".lock"), "w")
+    fcntl.flock(lock, fcntl.LOCK_EX)
     try:
         r = subprocess.run(cmd, cwd=crate, env=env, capture_output=True, text=True, timeout=unit.get("timeout", 900))
     except subprocess.TimeoutExpired:
         res["undecided"].append("cargo kani timed out")
         return res
+    finally:
+        fcntl.flock(lock, fcntl.LOCK_UN)
+        lock.close()
     res["wall"] = time.time() - t0
     res["cmds"] = ["(cd %s && CARGO_NET_OFFLINE=true %s)" % (unit["crate_dir"], " ".join(cmd))]
     out = r.stdout + "\n" + r.stderr
